@@ -54,6 +54,15 @@ Theorem file_name_is_last_component :
 Proof. exact (fun p => conj (file_name_eq_spec p) (is_hidden_eq_spec p)). Qed.
 Print Assumptions file_name_is_last_component.
 
+(* 4a. and "last component" means what it says: it contains no '/', and the path is a prefix that
+       is empty or ends in '/' followed by it *)
+Theorem last_component_is_after_last_slash :
+  forall p : bytes,
+    ~ In SLASH (last_component p) /\
+    exists pre, p = pre ++ last_component p /\ (pre = [] \/ exists pre', pre = pre' ++ [SLASH]).
+Proof. exact last_component_char. Qed.
+Print Assumptions last_component_is_after_last_slash.
+
 (* 4b. D4: on the pinned tree this was false — any path ending in '.' had no file name, so `.hid.`
        was not hidden.  Repaired by the fix: commit "ignore: file_name rejects only a final
        component that is '.' or '..'"; the model of the pinned text is kept for this witness. *)
